@@ -122,7 +122,7 @@ def generate(seed, tier, k):
         # FE job with the monitoring wrapper
         doc = gen.gen_job(seed, profile=r.choice(["history", "general"]))
         doc["c03"] = {"mode": "job", "probe_seed": r.randrange(1 << 30), "rate": 0.25}
-        return doc
+        return gen.maybe_units(doc, any_force=True)
     name = r.choice(MODELS + list(HISTORY) * 2 + ["NearlyIncompressible", "ThreeField"] * 2)
     # jax models cost ~2 s of jit per run: a few in the quick tier, a fifth of the thorough tier
     if r.random() < (0.2 if tier == "thorough" else 0.01):
